@@ -234,6 +234,24 @@ func pipeCase(ts TableSpec, obs View, csvOut Outcome) (string, bool) {
 	for i, k := range keys {
 		wt[i] = cqPair(cqStr(k), cqNat(wk[k]))
 	}
+	// strings the table does not hold, for the encoder model alone (Model/JsonString.v):
+	// every class of byte encoding/json treats specially, and a few random byte strings
+	hr := NewRNG(uint64(len(ops))*1000003 + uint64(len(wk)) + uint64(len(csvOut.Out))*7919)
+	if hr.Intn(24) == 0 {
+		for _, h := range pipeHostile {
+			b, _ := json.Marshal(h)
+			pc.strj[h] = string(b)
+		}
+	}
+	for i := 0; i < 3; i++ {
+		n := 1 + hr.Intn(9)
+		bs := make([]byte, n)
+		for j := range bs {
+			bs[j] = pipeByteClasses[hr.Intn(len(pipeByteClasses))]
+		}
+		b, _ := json.Marshal(string(bs))
+		pc.strj[string(bs)] = string(b)
+	}
 	keys = keys[:0]
 	for k := range pc.strj {
 		keys = append(keys, k)
@@ -258,3 +276,15 @@ func pipeCase(ts TableSpec, obs View, csvOut Outcome) (string, bool) {
 }
 
 var _ = tabular.New
+
+// bytes that matter to a UTF-8 decoder and to encoding/json's escaper
+var pipeByteClasses = []byte{0x00, 0x08, 0x09, 0x0a, 0x0c, 0x0d, 0x1f, 0x20, '"', '\\', '<', '>', '&', '/', 'a', 0x7f,
+	0x80, 0xa0, 0xa8, 0xa9, 0xbf, 0xc0, 0xc1, 0xc2, 0xdf, 0xe0, 0xe2, 0xed, 0xef, 0xf0, 0xf4, 0xf5, 0xff}
+
+var pipeHostile = []string{
+	"\x00", "\x01\x02\x07", "\b\f\n\r\t", "\x0b\x0e\x1f", "\x7f", "\"quoted\"", "back\\slash", "<script>&amp;</script>", "a/b",
+	"\u2028", "\u2029", "x\u2028y\u2029z", "\u2027\u202a", "\ufffd", "\u00e9", "\u65e5\u672c", "\U0001F600", "\U0010FFFF",
+	"\x80", "\xbf", "\xc0\x80", "\xc1\xbf", "\xc2", "\xc2\x41", "\xe0\x80\x80", "\xe0\xa0", "\xe2\x80", "\xed\xa0\x80", "\xed\xbf\xbf",
+	"\xef\xbf\xbd", "\xf0\x80\x80\x80", "\xf0\x90\x80", "\xf4\x8f\xbf\xbf", "\xf4\x90\x80\x80", "\xf5\x80\x80\x80", "\xff\xfe",
+	"ok\xe2\x82\xacend", "\xe2\x80\xa8", "\xe2\x80\xa9\xe2\x80\xa7",
+}
